@@ -105,6 +105,12 @@ func allSpecs() map[string]*PropSpec {
 		NotDecided:  "ordering and non-overlap of the emitted sequence (run-time sortedness), unsigned wrap-around in the encoder and in edit computations, equality of the client-side rebuilt array with the full response over request histories beyond T12.",
 		Rules:       []func(*Ctx){ruleSemantic, ruleLexPos, ruleUnits("module", nil)},
 	})
+	add(&PropSpec{
+		ID:          "C01",
+		Explanation: "C01-THREAD: in the change handler the stored text is a loop-carried value whose only sources are the stored text, a range-less change's text and the ranged applier applied to the running text, visited in list order. C01-STORE: that value is stored after the loop under the notification's URI; didOpen stores the opened text unconditionally; didClose deletes it. C01-OPTIONAL: whole-document replacement is selected by a nil test of an optional *Range, and the server binary routes textDocument/didChange to that handler through an interceptor installed on the connection. C01-CONV: the UTF-16 column is converted against the text of its own line (clamp to line end), lines past the end map to the end of the text. C01-CLAMP: both splice bounds depend on both converted positions (ordering swap) and on len(content). units: UTF-16 / byte / rune quantities are never mixed. C01-SOURCE: every parse on a handler path reads the text from the document store in the same request. C-CACHE: per-document caches filled by handlers are dropped by the change handler. C-FRESH: state written by background goroutines and read by handlers is reported.",
+		NotDecided:  "equality of the stored text with a reference client's buffer over all histories (needs execution); invalid UTF-8 (cannot arrive through JSON).",
+		Rules:       []func(*Ctx){ruleC01, ruleUnits("module", nil)},
+	})
 	return m
 }
 
